@@ -15,6 +15,7 @@ package index
 //@   ensures @bounds 0 <= r && r <= len(aa) && r <= len(bb)
 //@   ensures @common forall k int :: 0 <= k && k < r ==> aa[k] == bb[k]
 //@   ensures @differs r < len(aa) && r < len(bb) ==> aa[r] != bb[r]
+//@   ensures @lcp r == lcp(bytes(aa), bytes(bb))
 //@   loop 0 invariant 0 <= index && index <= smallerLength
 //@   loop 0 invariant smallerLength <= len(aa) && smallerLength <= len(bb)
 //@   loop 0 invariant smallerLength == len(aa) || smallerLength == len(bb)
@@ -53,7 +54,7 @@ package index
 // Object invariant of an open Index: handles present, configuration in range, current file
 // length bounded (it exceeds the limit by at most one record).
 //@ type Index
-//@   invariant @handles self.file != nil && self.writer != nil
+//@   invariant @handles self.file != nil && self.writer != nil && self.nextPool != nil
 //@   invariant @gc-channels self.gcStop != nil ==> !closed(self.gcStop)
 //@   invariant @closed-once oncedone(self.closeOnce) ==> self.$closed
 //@   invariant @config self.maxFileSize > 0 && self.maxFileSize <= (1 << 30) && self.length < (1 << 32)
@@ -240,3 +241,134 @@ package index
 
 // everything Index.Close may modify, as a footprint for callers in other packages
 //@ footprint INDEXCLOSE = heap("store/index.Index."), heap("BucketIndex->[]byte"), heap("E:~/store/types.Position"), heap("CH:"), heap("os.File.$open")
+
+// ===========================================================================
+// C08: prefix-compressed record lists.
+// Abstract view of a record list B (prelude reclist.smt2): rn(B) entries, entry i has stored
+// key rkey(B,i) and block code rblk(B,i), starts at byte rst(B,i).
+// FK(idx,B,i) is the full (bucket-prefix-stripped) index key of entry i: the index key of the
+// primary record the entry points to.
+//@ macro PFX(idx) = idx.sizeBits / 8
+//@ macro STRIP(idx, k) = bsub(k, PFX(idx), len(k))
+//@ macro FK(idx, B, i) = STRIP(idx, ikey(idx.Primary.$Rkey[rblk(B, i)]))
+// Representation invariant of one bucket's list whose full keys all have length L:
+//@ macro RLsorted(B) = forall i int, j int :: 0 <= i && i < j && j < rn(B) ==> blt(rkey(B, i), rkey(B, j))
+//@ macro RLprefixfree(B) = forall i int, j int :: 0 <= i && i < rn(B) && 0 <= j && j < rn(B) && i != j ==> !isprefix(rkey(B, i), rkey(B, j))
+//@ macro RLown(idx, B, L) = forall i int :: 0 <= i && i < rn(B) ==> idx.Primary.$Rin[rblk(B, i)] && isprefix(rkey(B, i), FK(idx, B, i)) && len(rkey(B, i)) >= 1 && len(rkey(B, i)) < 256 && len(FK(idx, B, i)) == L && len(ikey(idx.Primary.$Rkey[rblk(B, i)])) == L + PFX(idx)
+//@ macro RLdistinct(idx, B) = forall i int, j int :: 0 <= i && i < j && j < rn(B) ==> FK(idx, B, i) != FK(idx, B, j) && rblk(B, i) != rblk(B, j)
+//@ macro RL(idx, B, L) = rwf(B) && RLsorted(B) && RLprefixfree(B) && RLown(idx, B, L) && RLdistinct(idx, B)
+// The current list of a bucket: next pool, else current pool, else the list on disk.
+//@ type Index
+//@   ghost field $disk (Array Int Bytes)
+//@ macro HASCUR(idx, b) = (b in idx.nextPool) || (b in idx.curPool) || idx.buckets[b] != 0
+//@ macro CUR(idx, b) = ite(b in idx.nextPool, bytes(idx.nextPool[b]), ite(b in idx.curPool, bytes(idx.curPool[b]), idx.$disk[b]))
+
+//@ func (rl RecordList) Len() (n int)
+//@   inline
+//@ func NewRecordListRaw(data []byte) (rl RecordList)
+//@   inline
+
+// Byte-level functions, stated over the abstract view (GAP-RL until their bodies are verified).
+//@ func (rl RecordList) FindKeyPosition(key []byte) (pos int, prev Record, hasPrev bool)
+//@   abstract gap GAP-RL: the byte-level encoding implements the record view
+//@   requires rwf(bytes(rl))
+//@   abstract ensures pos == rst(bytes(rl), rfind(bytes(rl), bytes(key)))
+//@   abstract ensures hasPrev == (rfind(bytes(rl), bytes(key)) > 0)
+//@   abstract ensures hasPrev ==> prev.Pos == rst(bytes(rl), rfind(bytes(rl), bytes(key)) - 1) && bytes(prev.Key) == rkey(bytes(rl), rfind(bytes(rl), bytes(key)) - 1) && keyof(prev.Block) == rblk(bytes(rl), rfind(bytes(rl), bytes(key)) - 1)
+
+//@ func (rl RecordList) ReadRecord(pos int) (rec Record)
+//@   abstract gap GAP-RL: the byte-level encoding implements the record view
+//@   requires rwf(bytes(rl)) && 0 <= ridx(bytes(rl), pos) && ridx(bytes(rl), pos) < rn(bytes(rl)) && rst(bytes(rl), ridx(bytes(rl), pos)) == pos
+//@   abstract ensures rec.Pos == pos && bytes(rec.Key) == rkey(bytes(rl), ridx(bytes(rl), pos)) && keyof(rec.Block) == rblk(bytes(rl), ridx(bytes(rl), pos))
+
+//@ func EncodeKeyPosition(keyPos KeyPositionPair) (r []byte)
+//@   abstract gap GAP-RL: the byte-level encoding implements the record view
+//@   requires len(keyPos.Key) < 256
+//@   fresh r
+//@   abstract ensures r != nil && rwf(bytes(r)) && rn(bytes(r)) == 1 && rkey(bytes(r), 0) == bytes(keyPos.Key) && rblk(bytes(r), 0) == keyof(keyPos.Block)
+
+//@ func (rl RecordList) PutKeys(keys []KeyPositionPair, start int, end int) (r []byte)
+//@   define B() = bytes(rl)
+//@   define R() = bytes(r)
+//@   define A() = ridx(bytes(rl), start)
+//@   define Z() = ridx(bytes(rl), end)
+//@   abstract gap GAP-RL: the byte-level encoding implements the record view
+//@   requires rwf(B()) && 0 <= A() && A() <= Z() && Z() <= rn(B()) && rst(B(), A()) == start && rst(B(), Z()) == end
+//@   requires forall i int :: 0 <= i && i < len(keys) ==> len(keys[i].Key) < 256
+//@   fresh r
+//@   abstract ensures r != nil && rwf(R()) && rn(R()) == rn(B()) - (Z() - A()) + len(keys)
+//@   abstract ensures forall i int :: 0 <= i && i < A() ==> rkey(R(), i) == rkey(B(), i) && rblk(R(), i) == rblk(B(), i)
+//@   abstract ensures forall i int :: A() <= i && i < A() + len(keys) ==> rkey(R(), i) == bytes(keys[i - A()].Key) && rblk(R(), i) == keyof(keys[i - A()].Block)
+//@   abstract ensures forall i int :: A() + len(keys) <= i && i < rn(R()) ==> rkey(R(), i) == rkey(B(), i - len(keys) + (Z() - A())) && rblk(R(), i) == rblk(B(), i - len(keys) + (Z() - A()))
+
+//@ func (idx *Index) getBucketIndex(key []byte) (bucket BucketIndex, err error)  property C08
+//@   requires idx.sizeBits >= 8 && idx.sizeBits <= 31
+//@   ensures @short err == nil <==> len(key) >= 4
+//@   ensures @bucket err == nil ==> bucket == le32(bytes(key), 0) % pow2(idx.sizeBits) && bucket < pow2(idx.sizeBits)
+
+//@ func (idx *Index) getRecordsFromBucket(bucket BucketIndex) (rl RecordList, err error)
+//@   abstract gap GAP-1: the list read from disk is the ghost on-disk list of the bucket
+//@   abstract ensures err == nil && rl != nil ==> HASCUR(idx, bucket) && bytes(rl) == CUR(idx, bucket)
+//@   abstract ensures err == nil && rl == nil ==> !HASCUR(idx, bucket)
+
+// Index.Put (C08): the trimming rule preserves the representation invariant of the bucket's
+// list, for every list shape and key, in all three branches.
+//@ func (idx *Index) Put(key []byte, location types.Block) (err error)  property C08
+//@   define BK() = le32(bytes(key), 0) % pow2(idx.sizeBits)
+//@   define IK() = STRIP(idx, bytes(key))
+//@   define L() = len(key) - PFX(idx)
+//@   requires @config idx.sizeBits >= 8 && idx.sizeBits <= 31
+//@   requires @wf-bucket len(key) >= 4 && HASCUR(idx, BK()) ==> RL(idx, CUR(idx, BK()), L())
+//@   requires @record-stored idx.Primary.$Rin[keyof(location)] && ikey(idx.Primary.$Rkey[keyof(location)]) == bytes(key)
+//@   requires @fresh-location len(key) >= 4 && HASCUR(idx, BK()) ==> forall i int :: 0 <= i && i < rn(CUR(idx, BK())) ==> rblk(CUR(idx, BK()), i) != keyof(location)
+//@   requires @keylen len(key) - PFX(idx) < 256
+//@   preserves idx
+//@   unreachable return#3: every entry of a well-formed bucket points to a readable primary record (RLown), so reading the previous key cannot fail
+//@   unreachable return#4: the previous record's index key has the full key length (RLown), so it is never shorter than the bucket prefix
+//@   modifies idx.outstandingWork, mapof(idx.nextPool)
+//@   define B0() = old(CUR(idx, BK()))
+//@   define J0() = rfind(B0(), IK())
+// proof hints (each is an obligation, then available as a fact): the else branch
+//@   assert at before call index.RecordList.PutKeys#2: @else-view bytes(indexKey) == IK() && bytes(records) == B0() && pos == rst(B0(), J0()) && bytes(trimmedIndexKey#3) == IK()[:keyTrimPos#2+1] && 0 <= keyTrimPos#2 && keyTrimPos#2 < len(IK())
+//@   assert at before call index.RecordList.PutKeys#2: @else-prev J0() > 0 ==> blt(rkey(B0(), J0()-1), bytes(trimmedIndexKey#3)) && !isprefix(rkey(B0(), J0()-1), bytes(trimmedIndexKey#3)) && !isprefix(bytes(trimmedIndexKey#3), rkey(B0(), J0()-1))
+//@   assert at before call index.RecordList.PutKeys#2: @else-next J0() < rn(B0()) ==> blt(bytes(trimmedIndexKey#3), rkey(B0(), J0())) && !isprefix(rkey(B0(), J0()), bytes(trimmedIndexKey#3)) && !isprefix(bytes(trimmedIndexKey#3), rkey(B0(), J0()))
+// proof hints: the "previous stored key is a prefix of the new key" branch
+//@   define PK() = FK(idx, B0(), J0()-1)
+//@   assert at before call index.RecordList.PutKeys#1: @pfx-view bytes(indexKey) == IK() && bytes(records) == B0() && pos == rst(B0(), J0()) && J0() > 0 && prevRecord.Pos == rst(B0(), J0()-1) && bytes(prevKey) == PK() && keyTrimPos == lcp(IK(), PK()) && keyTrimPos < len(IK()) && keyTrimPos < len(PK()) && bytes(trimmedPrevKey) == PK()[:keyTrimPos+1] && bytes(trimmedIndexKey#2) == IK()[:keyTrimPos+1] && isprefix(rkey(B0(), J0()-1), IK()) && isprefix(rkey(B0(), J0()-1), PK())
+//@   assert at before call index.RecordList.PutKeys#1: @pfx-pair bytes(trimmedPrevKey) != bytes(trimmedIndexKey#2) && !isprefix(bytes(trimmedPrevKey), bytes(trimmedIndexKey#2)) && !isprefix(bytes(trimmedIndexKey#2), bytes(trimmedPrevKey)) && isprefix(rkey(B0(), J0()-1), bytes(trimmedPrevKey)) && isprefix(rkey(B0(), J0()-1), bytes(trimmedIndexKey#2))
+//@   assert at before call index.RecordList.PutKeys#1: @pfx-before J0() > 1 ==> blt(rkey(B0(), J0()-2), bytes(trimmedPrevKey)) && blt(rkey(B0(), J0()-2), bytes(trimmedIndexKey#2)) && !isprefix(rkey(B0(), J0()-2), bytes(trimmedPrevKey)) && !isprefix(rkey(B0(), J0()-2), bytes(trimmedIndexKey#2)) && !isprefix(bytes(trimmedPrevKey), rkey(B0(), J0()-2)) && !isprefix(bytes(trimmedIndexKey#2), rkey(B0(), J0()-2))
+//@   assert at before call index.RecordList.PutKeys#1: @pfx-after J0() < rn(B0()) ==> blt(bytes(trimmedPrevKey), rkey(B0(), J0())) && blt(bytes(trimmedIndexKey#2), rkey(B0(), J0())) && !isprefix(rkey(B0(), J0()), bytes(trimmedPrevKey)) && !isprefix(rkey(B0(), J0()), bytes(trimmedIndexKey#2)) && !isprefix(bytes(trimmedPrevKey), rkey(B0(), J0())) && !isprefix(bytes(trimmedIndexKey#2), rkey(B0(), J0()))
+//@   assert at after call index.RecordList.PutKeys#1: @pfx-sorted RLsorted(bytes($r0))
+//@   assert at after call index.RecordList.PutKeys#1: @pfx-prefixfree RLprefixfree(bytes($r0))
+//@   assert at after call index.RecordList.PutKeys#1: @pfx-own RLown(idx, bytes($r0), L())
+//@   assert at after call index.RecordList.PutKeys#1: @pfx-distinct RLdistinct(idx, bytes($r0))
+//@   assert at after call index.RecordList.PutKeys#2: @else-sorted RLsorted(bytes($r0))
+//@   assert at after call index.RecordList.PutKeys#2: @else-prefixfree RLprefixfree(bytes($r0))
+//@   assert at after call index.RecordList.PutKeys#2: @else-own RLown(idx, bytes($r0), L())
+//@   assert at after call index.RecordList.PutKeys#2: @else-distinct RLdistinct(idx, bytes($r0))
+//@   ensures @short len(key) < 4 ==> err != nil
+//@   ensures @has err == nil ==> HASCUR(idx, BK())
+//@   ensures @inv-wf err == nil ==> rwf(CUR(idx, BK()))
+//@   ensures @inv-sorted err == nil ==> RLsorted(CUR(idx, BK()))
+//@   ensures @inv-prefixfree err == nil ==> RLprefixfree(CUR(idx, BK()))
+//@   ensures @inv-own err == nil ==> RLown(idx, CUR(idx, BK()), L())
+//@   ensures @inv-distinct err == nil ==> RLdistinct(idx, CUR(idx, BK()))
+
+// Lemmas about byte strings used by the record-list proofs. Each is proved from the base
+// axioms of the Bytes theory alone and is then available to the solver as an axiom
+// (prelude byteslemmas.smt2).
+//@ lemma Bytes.lt_trans: forall a Bytes, b Bytes, c Bytes :: blt(a, b) && blt(b, c) ==> blt(a, c) property C08
+//@ lemma Bytes.lt_asym: forall a Bytes, b Bytes :: !(blt(a, b) && blt(b, a)) property C08
+//@ lemma Bytes.prefix_le: forall a Bytes, b Bytes :: isprefix(a, b) ==> !blt(b, a) property C08
+//@ lemma Bytes.nonprefix_between: forall a Bytes, b Bytes, c Bytes :: blt(a, b) && blt(b, c) && !isprefix(a, b) ==> !isprefix(a, c) && !isprefix(c, a) property C08
+//@ lemma Bytes.take_prefix: forall s Bytes, n int :: 0 <= n && n <= len(s) ==> isprefix(s[:n], s) property C08
+//@ lemma Bytes.trim_prev: forall a Bytes, k Bytes, t int :: blt(a, k) && !isprefix(a, k) && lcp(k, a) <= t && t < len(k) ==> blt(a, k[:t+1]) && !isprefix(a, k[:t+1]) && !isprefix(k[:t+1], a) property C08
+//@ lemma Bytes.trim_next: forall c Bytes, k Bytes, t int :: blt(k, c) && !isprefix(k, c) && lcp(k, c) <= t && t < len(k) ==> blt(k[:t+1], c) && !isprefix(c, k[:t+1]) && !isprefix(k[:t+1], c) property C08
+//@ lemma Bytes.lt_total: forall a Bytes, b Bytes :: a == b || blt(a, b) || blt(b, a) property C08
+//@ lemma Bytes.ext_left: forall a Bytes, b Bytes, c Bytes :: blt(a, b) && !isprefix(a, b) && isprefix(b, c) ==> blt(a, c) && !isprefix(a, c) && !isprefix(c, a) property C08
+//@ lemma Bytes.ext_right: forall a Bytes, b Bytes, c Bytes :: blt(b, a) && !isprefix(b, a) && isprefix(b, c) ==> blt(c, a) && !isprefix(c, a) && !isprefix(a, c) property C08
+//@ lemma Bytes.prefix_trans: forall a Bytes, b Bytes, c Bytes :: isprefix(a, b) && isprefix(b, c) ==> isprefix(a, c) property C08
+//@ lemma Bytes.split_at_lcp: forall a Bytes, b Bytes :: lcp(a, b) < len(a) && lcp(a, b) < len(b) ==> a[:lcp(a, b)+1] != b[:lcp(a, b)+1] && !isprefix(a[:lcp(a, b)+1], b[:lcp(a, b)+1]) && !isprefix(b[:lcp(a, b)+1], a[:lcp(a, b)+1]) property C08
+//@ lemma Bytes.sub_view: forall a (Array Int Int), o int, l int, lo int, hi int :: 0 <= lo && lo <= hi && hi <= l ==> bsub(mkbytes(a, o, l), lo, hi) == mkbytes(a, o + lo, hi - lo) property C08
+//@ lemma Bytes.prefix_take: forall p Bytes, x Bytes, n int :: isprefix(p, x) && len(p) <= n && n <= len(x) ==> isprefix(p, x[:n]) property C08
+//@ lemma Bytes.prefix_lcp: forall p Bytes, x Bytes, y Bytes :: isprefix(p, x) && isprefix(p, y) ==> len(p) <= lcp(x, y) property C08
